@@ -2062,7 +2062,19 @@ fuzzy_info = {json.dumps(ret)};
         # VV: Maps the spelling of a reference in the arguments to the value that replaces it
         substitutions = {}  # type: Dict[str, str]
 
-        for reference in self.dataReferences:
+        # VV: The relative spelling of a reference carries no stage index. It denotes the producer in the stage of this
+        # component and, when no reference points there, the producer in the lowest stage. Decide which reference owns
+        # each relative spelling up front, so that the outcome does not depend on the order of the references
+        own_stage = self.identification.stageIndex
+        data_references = list(self.dataReferences)
+        relative_owner = {}  # type: Dict[str, DataReference]
+        for reference in data_references:
+            rivals = [relative_owner.get(reference.relativeReference), reference]
+            relative_owner[reference.relativeReference] = min(
+                [r for r in rivals if r is not None],
+                key=lambda r: (r.stageIndex != own_stage, r.stageIndex if r.stageIndex is not None else -1))
+
+        for reference in data_references:
             graphLogger.debug("Reference: \"%s\"" % reference)
             graphLogger.debug('References:')
             try:
@@ -2126,11 +2138,15 @@ fuzzy_info = {json.dumps(ret)};
             if reference.method in [DataReference.Output, DataReference.LoopOutput]:
                 # VV: The reference value is in fact the CONTENTS of the file that the data-reference points to
                 reference_value = reference_value or ""
+                found = False
                 if pattern_absolute.search(arguments) is not None:
                     substitutions.setdefault(reference.absoluteReference, reference_value)
-                elif pattern_relative.search(arguments) is not None:
+                    found = True
+                if relative_owner[reference.relativeReference] is reference \
+                        and pattern_relative.search(arguments) is not None:
                     substitutions.setdefault(reference.relativeReference, reference_value)
-                else:
+                    found = True
+                if found is False:
                     if unused is not None:
                         unused.append(experiment.model.errors.UnusedDataReferenceError(self.identification.identifier,
                                                                                        reference,
@@ -2148,7 +2164,9 @@ fuzzy_info = {json.dumps(ret)};
             elif reference_value is not None and reference.method in [DataReference.Ref, DataReference.LoopRef]:
                 # VV: The reference_value is definitely a path because it's a "ref" type
                 path = reference_value
-                if pattern_absolute.search(arguments) is None and pattern_relative.search(arguments) is None:
+                owns_relative = relative_owner[reference.relativeReference] is reference
+                if pattern_absolute.search(arguments) is None and (
+                        owns_relative is False or pattern_relative.search(arguments) is None):
                     if unused is not None:
                         unused.append(experiment.model.errors.UnusedDataReferenceError(self.identification.identifier,
                                                                                        reference,
@@ -2160,11 +2178,11 @@ fuzzy_info = {json.dumps(ret)};
                                                     arguments
                                          )))
                 else:
-                    # Resolve the reference in the command line
-                    if pattern_absolute.search(arguments) is None:
-                        substitutions.setdefault(reference.relativeReference, path)
-                    else:
+                    # Resolve the reference in the command line (both spellings may be present)
+                    if pattern_absolute.search(arguments) is not None:
                         substitutions.setdefault(reference.absoluteReference, path)
+                    if owns_relative and pattern_relative.search(arguments) is not None:
+                        substitutions.setdefault(reference.relativeReference, path)
 
         # VV: Substitute all the references in one pass so that text which is inserted for one reference (e.g. the
         # contents of a file for an :output reference) is never scanned for occurrences of the other references -
